@@ -527,3 +527,24 @@ def failed_io_ends_loop_rule(ctx, reach, rule):
                    how='with the result forced to -1 no path leads back to the call (errno-tested retries aside)')
     chk.count('io_calls_in_loops', n)
     return n
+
+
+def alias_root(func, decl_id, depth=0):
+    """the variable a pointer variable is a plain copy of: follows `p = q` / `T *p = q` when that is p's only non-null
+    definition (parameters of inlined helpers, result variables); the id itself otherwise"""
+    from engine.dataflow import def_exprs, def_sites
+    if depth > 8:
+        return decl_id
+    sites = def_sites(func, decl_id)
+    if any(k in ('incdec', 'addr') for k, _ in sites):
+        return decl_id
+    defs = [strip(x) for x in def_exprs(func, decl_id)]
+    defs = [x for x in defs if x is not None and not (x.get('null') or x.get('v') == 0)]
+    if len(defs) != 1:
+        return decl_id
+    x = defs[0]
+    while x is not None and x.k == 'ImplicitCastExpr':
+        x = strip(x.ch[0]) if x.ch else None
+    if x is not None and x.k == 'DeclRefExpr' and x['ref'].get('kind') in ('var', 'parm') and x['ref']['id'] != decl_id:
+        return alias_root(func, x['ref']['id'], depth + 1)
+    return decl_id
